@@ -170,7 +170,8 @@ def h_session(ctx, n=3, kind='T1', side='long', exch='futures', cancel=True):
         tp2 = ctx.real('tp2', 50, 200)
         ctx.constrain(And(sl < 99.7, tp > 100.3, tp2 > 100.3) if long else And(sl > 100.3, tp < 99.7, tp2 < 99.7))
         T = S.make_template(side=side, entry=None, stop=sl, take=tp, qty=1.0, on_open_exits=True, name='T4',
-                            update_take=lambda s: (1.0, tp2) if s.index >= 1 else s.take_profit)
+                            exit_qty_from_position=(exch == 'spot'),
+                            update_take=lambda s: ((abs(s.position.qty) if exch == 'spot' else 1.0), tp2) if s.index >= 1 else s.take_profit)
     elif kind == 'T3':
         sl = ctx.real('sl', 50, 200)
         t1 = ctx.real('t1', 50, 200)
